@@ -120,7 +120,7 @@ func ruleWireFields(c *Check, p *Program, rule string) {
 	// --- block checksum
 	var wSite, wAnchor *ssa.BasicBlock
 	var wPos string
-	for _, ci := range callsIn(wr) {
+	for _, ci := range callsInDeep(wr) {
 		if isBinaryLE(ci, "PutUint32") {
 			v := leValueArg(ci)
 			switch {
@@ -134,7 +134,7 @@ func ruleWireFields(c *Check, p *Program, rule string) {
 	}
 	var rSite, rAnchor *ssa.BasicBlock
 	var rPos string
-	allInstrs(rd, func(in ssa.Instruction) {
+	allInstrsDeep(rd, func(in ssa.Instruction) {
 		if st, ok := in.(*ssa.Store); ok {
 			switch lastField(st.Addr) {
 			case "FrameDataBlock.Checksum":
@@ -167,7 +167,7 @@ func ruleWireFields(c *Check, p *Program, rule string) {
 	// --- content size and descriptor bytes
 	var sSite, sAnchor, fSite *ssa.BasicBlock
 	var sPos, fPos string
-	for _, ci := range callsIn(dw) {
+	for _, ci := range callsInDeep(dw) {
 		switch {
 		case isBinaryLE(ci, "PutUint64") && derivesFromField(leValueArg(ci), "FrameDescriptor.ContentSize"):
 			sSite, sPos = ci.Block(), p.InstrPos(ci)
@@ -181,7 +181,7 @@ func ruleWireFields(c *Check, p *Program, rule string) {
 	checkField("content size", sSite, sAnchor, sPos, []string{"!legacy", "flag:Size"}, "writer")
 	var rsSite, rfSite *ssa.BasicBlock
 	var rsPos, rfPos string
-	allInstrs(dr, func(in ssa.Instruction) {
+	allInstrsDeep(dr, func(in ssa.Instruction) {
 		if st, ok := in.(*ssa.Store); ok {
 			switch lastField(st.Addr) {
 			case "FrameDescriptor.ContentSize":
@@ -199,7 +199,7 @@ func ruleWireFields(c *Check, p *Program, rule string) {
 	// --- end mark and content checksum
 	var emSite, ccSite, finalWrite *ssa.BasicBlock
 	var emPos, ccPos string
-	allInstrs(cw, func(in ssa.Instruction) {
+	allInstrsDeep(cw, func(in ssa.Instruction) {
 		if cc, ok := isBuiltinCall(in, "append"); ok && len(cc.Args) == 2 {
 			if isFourZeros(cc.Args[1]) {
 				emSite, emPos = in.Block(), p.InstrPos(in)
@@ -224,7 +224,7 @@ func ruleWireFields(c *Check, p *Program, rule string) {
 	}
 	var rcSite *ssa.BasicBlock
 	var rcPos string
-	allInstrs(cr, func(in ssa.Instruction) {
+	allInstrsDeep(cr, func(in ssa.Instruction) {
 		if st, ok := in.(*ssa.Store); ok && lastField(st.Addr) == "Frame.Checksum" && derivesFromCall(st.Val, isSourceRead32) {
 			rcSite, rcPos = in.Block(), p.InstrPos(in)
 		}
@@ -234,7 +234,7 @@ func ruleWireFields(c *Check, p *Program, rule string) {
 	var emr *ssa.BasicBlock
 	var emrPos string
 	var xval ssa.Value
-	allInstrs(rd, func(in ssa.Instruction) {
+	allInstrsDeep(rd, func(in ssa.Instruction) {
 		if r, ok := in.(*ssa.Return); ok && len(r.Results) == 2 && isGlobalLoad(r.Results[1], "io", "EOF") {
 			ats := atomsOfBlock(in.Block())
 			if hasAtom(ats, "legacy", "", false) {
@@ -341,7 +341,7 @@ func ruleLegacyNeutral(c *Check, p *Program, rule string) {
 				zeroStore = in
 			}
 		}
-		if ci, ok := in.(ssa.CallInstruction); ok && calleeIs(ci, pkgStream, "DescriptorFlags.BlockSizeIndexSet") {
+		if ci, ok := in.(ssa.CallInstruction); ok && callReaches(ci, func(x ssa.CallInstruction) bool { return calleeIs(x, pkgStream, "DescriptorFlags.BlockSizeIndexSet") }) {
 			idxSet = in
 		}
 	})
@@ -359,15 +359,21 @@ func ruleLegacyNeutral(c *Check, p *Program, rule string) {
 			continue
 		}
 		good := false
-		allInstrs(fn, func(in ssa.Instruction) {
-			ci, ok := in.(ssa.CallInstruction)
-			if !ok || !calleeIs(ci, pkgStream, "DescriptorFlags.BlockSizeIndexSet") {
+		deepCalls(fn, 2, func(ci ssa.CallInstruction, chain []ssa.CallInstruction) {
+			if !calleeIs(ci, pkgStream, "DescriptorFlags.BlockSizeIndexSet") {
 				return
 			}
-			legacyGuard := hasAtom(atomsOfBlock(in.Block()), "legacy", "", true)
-			if !legacyGuard {
+			legacyGuard := false
+			blocks := []*ssa.BasicBlock{ci.Block()}
+			for _, cc := range chain {
+				blocks = append(blocks, cc.Block())
+			}
+			for _, blk := range blocks {
+				if hasAtom(atomsOfBlockLocal(blk), "legacy", "", true) {
+					legacyGuard = true
+				}
 				// InitW: guarded by the `legacy` parameter
-				for _, l := range guardsOf(in.Block()) {
+				for _, l := range guardsOf(blk) {
 					if pr, isP := l.Cond.(*ssa.Parameter); isP && pr.Name() == "legacy" && l.Val {
 						legacyGuard = true
 					}
@@ -848,4 +854,26 @@ func reachFromBlockAvoid(start *ssa.BasicBlock, to, avoid iPred) (bool, []string
 		return false
 	}
 	return rec(start), nil
+}
+
+// callReaches: the call instruction itself satisfies pred, or it calls a module
+// helper that (transitively, bounded) contains a call satisfying pred.
+func callReaches(ci ssa.CallInstruction, pred func(ssa.CallInstruction) bool) bool {
+	if pred(ci) {
+		return true
+	}
+	if _, isGo := ci.(*ssa.Go); isGo {
+		return false
+	}
+	f := staticCallee(ci)
+	if !inModule(f) {
+		return false
+	}
+	found := false
+	deepCalls(f, 2, func(x ssa.CallInstruction, _ []ssa.CallInstruction) {
+		if pred(x) {
+			found = true
+		}
+	})
+	return found
 }
